@@ -10,7 +10,6 @@ props = [json.loads(l) for l in open(os.path.join(VERIF, "properties.jsonl"))]
 CHECKS = {}
 NA = {
     "C14": "ring/module identities are arithmetic over element values; a static route would be polynomial normal forms through a dozen template layers of storage plumbing (a false alarm in waiting); index bounds are already compile-time enforced by the library (DESIGN.md §7)",
-    "C16": "extensional equality with a loop-based reference over run-time containers; the bodies are thin wrappers over std algorithms; their UB/progress/move obligations are covered by C01 and C05, no clause specific to C16 is visible in code shape (DESIGN.md §7)",
     "C18": "contents/size of ranges, modular advance and the spiral walk are arithmetic over run-time values and iteration counts; no finite abstraction in reach is exact (DESIGN.md §7)",
 }
 
